@@ -4304,3 +4304,99 @@ func c05AlertID(c *core.Ctx, root *packages.Package) {
 		c.Check(handled && counted && returnsErr == token.NoPos, "C05.alertid", construct, fn.Decl.Pos(), "%s returns the error of the ID template (or does not count it; handled %v, counted %v): the template is executed on the tags of every point, one point on which it fails — a tag value shorter than the slice it takes — ends the alert node and with it the task", construct, handled, counted)
 	}
 }
+
+// c13ZeroArgs (F135): the pipeline→TICKscript function builder has two kinds of call: Pipe/Dot/At leave out every argument
+// that is the zero value of its type (right for a property with one argument, where zero means "not set"), the ZeroValueOK
+// variants render all. Where a call has two or more arguments they are positional — leaving one out moves the others
+// (holtWinters('value', 10, 0, 1m) with three arguments, .field('x', 0.0) as .field('x')): such a call uses a ZeroValueOK
+// variant, unless it is in the table of read-and-verified exceptions.
+func c13ZeroArgs(c *core.Ctx) {
+	c.Rule("C13.zeroargs", "A7: in the Build methods of pipeline/tick every call of a zero-dropping builder method (Pipe, Dot, At) passes at most one value besides the name, or spreads the result of the list helpers args()/largs() (a list of equals); a call with two or more positional values, or one that spreads a slice assembled from different values, uses PipeZeroValueOK/DotZeroValueOK — exceptions are listed with their reason (sample: N and Duration are alternatives; link: the text is optional)")
+	tp := c.P.Pkg("pipeline/tick")
+	if tp == nil {
+		c.Undecided("C13.zeroargs", "anchor:pipeline/tick", token.NoPos, "package not loaded")
+		return
+	}
+	info := tp.TypesInfo
+	exempt := map[string]string{
+		"SampleNode.Build#sample": "sample(N) and sample(Duration) are alternatives: the builder passes both and relies on the zero one being left out",
+		"AlertNode.Build#link":    "link(url, text...): the text is optional, an empty one may be left out",
+		// lists of equals assembled in a loop: an empty element carries no position
+		"ChangeDetectNode.Build#changeDetect": "changeDetect(fields...): a list of field names",
+		"FromNode.Build#groupBy":              "groupBy(dimensions...): a list of tag names, time() and * nodes",
+		"GroupByNode.Build#groupBy":           "groupBy(dimensions...): a list of tag names, time() and * nodes",
+		"JoinNode.Build#join":                 "join(nodes...): references to the joined nodes, never zero",
+		"UnionNode.Build#union":               "union(nodes...): references to the united nodes, never zero",
+		"SideloadNode.Build#order":            "order(paths...): a list of path templates",
+	}
+	n := 0
+	for _, f := range core.AllFuncs(tp) {
+		if f.Decl.Name.Name != "Build" || f.Decl.Recv == nil {
+			continue
+		}
+		recv := core.RecvName(f.Decl)
+		ast.Inspect(f.Decl.Body, func(nd ast.Node) bool {
+			call, ok := nd.(*ast.CallExpr)
+			if !ok || len(call.Args) < 2 {
+				return true
+			}
+			cal := core.Callee(info, call)
+			if cal == nil || core.RecvTypeName(cal) != "Function" {
+				return true
+			}
+			switch cal.Name() {
+			case "Pipe", "Dot", "At":
+			default:
+				return true
+			}
+			label := "?"
+			if tv, ok := info.Types[call.Args[0]]; ok && tv.Value != nil && tv.Value.Kind() == constant.String {
+				label = constant.StringVal(tv.Value)
+			} else {
+				label = types.ExprString(call.Args[0])
+			}
+			construct := recv + ".Build#" + label
+			positional := false
+			why := ""
+			if call.Ellipsis != token.NoPos {
+				last := ast.Unparen(call.Args[len(call.Args)-1])
+				if inner, ok := last.(*ast.CallExpr); ok {
+					if ic := core.Callee(info, inner); ic != nil && (ic.Name() == "args" || ic.Name() == "largs") && len(call.Args) == 2 {
+						return true // a list of equals
+					}
+				}
+				positional, why = true, "spreads "+types.ExprString(last)+", a slice assembled from different values"
+			} else if len(call.Args) >= 3 {
+				positional, why = true, fmt.Sprintf("passes %d values", len(call.Args)-1)
+			}
+			if !positional {
+				return true
+			}
+			n++
+			c.Analysed(f)
+			if r, ok := exempt[construct]; ok {
+				c.Ok("C13.zeroargs", construct, "exempt: "+r)
+				return true
+			}
+			c.Fail("C13.zeroargs", construct, call.Pos(), "%s.Build renders %s through %s, which leaves out every zero-valued argument, and %s: the arguments are positional — holtWinters('value', 10, 0, 1m) comes out with three arguments, .field('x', 0.0) as .field('x'), .header('k', '') as .header('k'): the rendered script does not compile or defines another task", recv, label, cal.Name(), why)
+			return true
+		})
+	}
+	// the calls that keep zero values are counted too: the rule protects them
+	m := 0
+	for _, f := range core.AllFuncs(tp) {
+		if f.Decl.Name.Name != "Build" {
+			continue
+		}
+		ast.Inspect(f.Decl.Body, func(nd ast.Node) bool {
+			if call, ok := nd.(*ast.CallExpr); ok {
+				if cal := core.Callee(info, call); cal != nil && core.RecvTypeName(cal) == "Function" && (cal.Name() == "DotZeroValueOK" || cal.Name() == "PipeZeroValueOK") {
+					m++
+				}
+			}
+			return true
+		})
+	}
+	c.Floor("C13.zeroargs", "positional calls that keep zero values", m, 10)
+	c.Floor("C13.zeroargs", "exempted positional calls", n, 8)
+}
